@@ -131,6 +131,9 @@ class Ctx:
     # * entries carry a generation depth (0 = occurs in program/goal; d+1 = first produced while
     #   instantiating at a depth-d entry); only depth <= MAX_INST_DEPTH is used.
 
+    def in_spec_probe(self):
+        return self._probe is not None
+
     def push_goal_scope(self):
         """Snapshot the instantiation state; Skolem indices / hints of one goal must not leak
         into the next goal of the same path."""
